@@ -21,6 +21,15 @@ type Cell struct {
 type Ptr struct{ C *Cell }
 type Struct struct{ F []*Cell }
 
+// SymPtr is the address of an array element whose index is symbolic (bounds already checked):
+// a load builds an if-then-else chain over the elements instead of forking.
+type SymPtr struct {
+	A   *Array
+	Off int
+	Len int
+	Idx *Term
+}
+
 // Array is a fixed-size backing store; cells are created lazily (nil = zero value of Elem).
 type Array struct {
 	E    []*Cell
